@@ -18,7 +18,7 @@ type Status string
 const (
 	OK        Status = "ok"
 	Violated  Status = "violated"
-	Undecided Status = "undecided" // rule could not be decided: counts as a broken check
+	Undecided Status = "undecided" // rule could not establish its clause: reported as a violation ("not established")
 )
 
 type Obligation struct {
@@ -120,7 +120,11 @@ func (r *Result) Finish() int {
 				viol = append(viol, o)
 			}
 		case Undecided:
+			// a rule that cannot establish its clause for the construct reports it: the construct does not fit any
+			// idiom the rule accepts (on the pinned tree every obligation is decided)
+			o.Detail = "not established (undecided): " + o.Detail
 			und = append(und, o)
+			viol = append(viol, o)
 		}
 	}
 	// a known finding that no longer reproduces is stale: tell, but do not fail
@@ -134,9 +138,6 @@ func (r *Result) Finish() int {
 		if !found {
 			fmt.Printf("NOTE: known finding %s no longer reported (fixed or anchor changed)\n", k)
 		}
-	}
-	for _, u := range und {
-		r.Broken = append(r.Broken, fmt.Sprintf("undecided %s: %s (%s)", u.Key, u.Detail, u.Pos))
 	}
 	if len(r.Obligations) == 0 {
 		r.Broken = append(r.Broken, "no obligations generated")
